@@ -134,6 +134,26 @@ Section Chat.
     chat_ns_final tools (ns_fold [] zero_msg (chat_stream (mkCc false tools) o)).
 End Chat.
 
+(** ** raw requests.  In the JSON body a field can be absent, null, or present with a value (possibly empty: [], "", {}).
+    encoding/json gives the handler nil for absent and null, and an empty non-nil value for an empty one.  The handler
+    reads `stream` as `req.Stream != nil && !*req.Stream` and "tools were requested" as `len(req.Tools) > 0` at EVERY
+    site (capability check, streaming callback, non-stream parse); /v1 re-marshals the request and drops an empty list. *)
+Inductive jfield (A : Type) := JAbsent | JNull | JVal (v : A).
+Arguments JAbsent {A}. Arguments JNull {A}. Arguments JVal {A} v.
+Record chat_raw := mkRaw { q_stream : jfield bool; q_tools : jfield (list str) }.   (* tools: the function names *)
+
+Definition stream_false (f : jfield bool) : bool := match f with JVal false => true | _ => false end.
+Definition tools_len_pos (f : jfield (list str)) : bool := match f with JVal (_ :: _) => true | _ => false end.
+Definition tools_non_nil (f : jfield (list str)) : bool := match f with JVal _ => true | _ => false end.  (* NOT what the code asks *)
+
+Definition chat_cfg_of (q : chat_raw) : ccfg := mkCc (negb (stream_false (q_stream q))) (tools_len_pos (q_tools q)).
+Definition chat_ns_tools_of (q : chat_raw) : bool := tools_len_pos (q_tools q).
+
+(** normal form of a request: nil and empty are the same request *)
+Definition norm_raw (q : chat_raw) : bool * option (list str) :=
+  (match q_stream q with JVal b => b | _ => true end,
+   match q_tools q with JVal (x :: l) => Some (x :: l) | _ => None end).
+
 (** ** arbitrary callback traces.  [rout] is what llm.LlamaServer.Completion promises (its contract: content callbacks, then
     a final response and nil, or an error and no final response).  The handlers themselves do not rely on it: they
     forward every callback and append an error record when Completion returns an error.  A trace is any sequence of
